@@ -117,6 +117,8 @@ def shape_array_class(st, rank, mask, static_type=None):
         "__name__": Atom("ArrCls", role="name"),
         "_c_type": Atom("ArrCls", role="type", ends_star=False),
         "_size": None if not static_shape else fresh_int("arr_size"),
+        # the item type (every array class has one); only its size is modelled, meaningful when the items are statically sized
+        "_itemtype": closed(SymObj("ItemType", {"_size": fresh_int("item_size"), "__name__": Atom("Item", role="name")})),
     }
     absent = set()
     strides = None
